@@ -20,7 +20,7 @@ RULE = ('one trash-restore per case: 1-4 trashed entries (file, dir, symlink) wh
         '(trashed kind, destination kind, overwrite, position in selection)')
 ASSUMPTIONS = ['with --overwrite and a directory at the destination the outcome is not specified by the property and not judged',
                'what happens to entries selected after a refused one is not specified and not judged']
-PROBES = ['refused', 'overwritten', 'restored-to-free-destination', 'multi-index', 'dest-dangling', 'dest-symlink-dir', 'dest-dir',
+PROBES = ['same-location-twice', 'refused', 'overwritten', 'restored-to-free-destination', 'multi-index', 'dest-dangling', 'dest-symlink-dir', 'dest-dir',
           'dest-file', 'restored-before-refusal']
 TECHNIQUE = 'deterministic simulation of trash-restore against generated destination states; snapshot oracle on destination, link targets and trash pair'
 LEVEL_TEXT = 'seeded exploration of trashed kind x destination kind x --overwrite x selection; judged on real file-system semantics'
@@ -36,6 +36,7 @@ def gen(rng):
     home = L['home']
     locs = [t for t in TG.trash_locations(L) if t[2]]
     n = rng.choice([1, 1, 2, 3, 4])
+    ngen2 = 0
     steps.append(['d', home + '/tg', 0o755])
     steps.append(['f', home + '/tg/linked_file', 'target content', 0o644, 1_111_111_111])
     steps.append(['d', home + '/tg/linked_dir', 0o755])
@@ -47,6 +48,10 @@ def gen(rng):
         loc = base + '/' + nm
         pv = TG.pct(loc if top is None else loc[len(top) + 1:])
         G.add_trashed(steps, tdir, nm, pv, TG.iso(TG.rand_date(rng)), rng.choice(['file', 'dir', 'link']), tag=str(i))
+        if rng.random() < 0.2:
+            # an older generation trashed from the same location
+            G.add_trashed(steps, tdir, nm + '_1', pv, TG.iso(TG.rand_date(rng)), rng.choice(['file', 'dir', 'link']), tag='gen2-%d' % i)
+            ngen2 += 1
         dk = rng.choice(DEST)
         if dk == 'file':
             steps.append(['f', loc, 'existing-%d' % i, 0o640, 1_222_222_222])
@@ -71,12 +76,12 @@ def gen(rng):
     argv.append('/')
     if rng.random() < 0.5:
         argv.append('--sort=path')
-    idx = list(range(n))
+    idx = list(range(n + ngen2))
     rng.shuffle(idx)
-    sel = idx[:rng.randint(1, n)]
+    sel = idx[:rng.randint(1, n + ngen2)]
     reply = ','.join(str(i) for i in sel)
-    if n > 1 and rng.random() < 0.2:
-        reply = '0-%d' % (n - 1)
+    if n + ngen2 > 1 and rng.random() < 0.25:
+        reply = '0-%d' % (n + ngen2 - 1)
     return {
         'world': {'mounts': L['mounts'], 'steps': steps},
         'procs': [{'argv': argv, 'env': L['env'], 'cwd': '/', 'uid': L['uid'], 'stdin': reply + '\n'}],
@@ -124,72 +129,126 @@ def check(sim, case, st):
             order.append(i)
     if len(order) > 1:
         st.probes['multi-index'] += 1
-    # map printed lines to bag entries (locations are unique in this generator)
-    byloc = {}
+    # map printed lines to bag entries by (date, location)
+    bykey = {}
     for e in bag0:
         if e.location is not None:
-            byloc.setdefault(e.location, []).append(e)
-    refused_seen = False
+            bykey.setdefault((str(e.date) if e.date else 'None', e.location), []).append(e)
     locs_sel = [listing[i][2] for i in order]
+    if any(o != l and (o.startswith(l + '/') or l.startswith(o + '/')) for o in locs_sel for l in locs_sel):
+        return []
+    # sequential model of the selection.  Pass 1: what each step should do,
+    # assuming the steps before it succeeded.
+    steps = []           # (entry, loc, action, trashed kind, occupant kind, occupant tree, payload tree)
+    state = {}           # location -> tree the model expects there
     for pos, i in enumerate(order):
         loc = listing[i][2]
-        ents = byloc.get(loc, [])
-        if len(ents) != 1 or locs_sel.count(loc) != 1:
+        ents = bykey.get((listing[i][1], loc), [])
+        if len(ents) != 1:
             return []
         e = ents[0]
-        if any(o != loc and (o.startswith(loc + '/') or loc.startswith(o + '/')) for o in locs_sel):
-            return []
-        dk = dest_kind(snap0, loc)
-        tk = {'f': 'file', 'd': 'dir', 'l': 'symlink', 'o': 'other'}.get((OR.payload_tree(snap0, e).get('') or 'o')[0], 'none')
-        if refused_seen:
-            break           # after a refusal nothing is specified
         want = OR.payload_tree(snap0, e)
-        if dk == 'absent':
-            have = Wd.subtree(snap1, loc)
-            if not Wd.same_tree(want, have) or not OR.pair_gone(snap1, e):
-                res.append(('C06/free-destination-not-restored/%s' % tk, 'entry %r selected, destination free, but not restored properly (exit %s) stderr %s'
-                            % (e, r.exit, r.errs[-300:])))
-            else:
-                st.probes['restored-to-free-destination'] += 1
-                if pos < len(order) - 1:
-                    st.probes['restored-before-refusal'] += 1
-            continue
-        st.distinct.add((tk, dk, overwrite, min(pos, 2)))
-        st.probes['dest-' + ('dangling' if dk == 'symlink->nothing' else 'symlink-dir' if dk == 'symlink->dir' else 'dir' if dk == 'dir' else 'file')] += 1
-        if not overwrite:
-            refused_seen = True
-            same_dest = Wd.same_tree(Wd.subtree(snap0, loc), Wd.subtree(snap1, loc))
-            if not same_dest:
-                res.append(('C06/clobbered-without-overwrite/trashed=%s/dest=%s' % (tk, dk),
-                            'destination %r (%s) existed, no --overwrite, but it changed: %r -> %r (exit %s)\nstderr: %s'
-                            % (loc, dk, Wd.subtree(snap0, loc), Wd.subtree(snap1, loc), r.exit, r.errs[-300:])))
-            if not OR.pair_intact(snap0, snap1, e):
-                res.append(('C06/refused-but-pair-changed/trashed=%s/dest=%s' % (tk, dk),
-                            'destination %r existed, no --overwrite, but the trashed pair %r changed' % (loc, e)))
-            if r.exit == 0:
-                res.append(('C06/refusal-exit0/trashed=%s/dest=%s' % (tk, dk), 'destination %r (%s) existed, no --overwrite, exit status 0; stderr %r' % (loc, dk, r.errs[-200:])))
-            elif same_dest:
-                st.probes['refused'] += 1
+        tk = {'f': 'file', 'd': 'dir', 'l': 'symlink', 'o': 'other'}.get((want.get('') or 'o')[0], 'none')
+        if loc in state:
+            occupant = state[loc]
+            dk = {'f': 'file', 'd': 'dir', 'l': 'symlink'}.get((occupant.get('') or 'o')[0], 'file') + '(restored-just-before)'
+            st.probes['same-location-twice'] += 1
         else:
-            if dk == 'dir':
-                refused_seen = True      # unspecified: stop judging
+            occupant = Wd.subtree(snap0, loc)
+            dk = dest_kind(snap0, loc)
+        if not occupant:
+            action = 'free'
+        elif not overwrite:
+            action = 'refuse'
+        elif dk.startswith('dir'):
+            action = 'unspecified'
+        else:
+            action = 'overwrite'
+        steps.append((e, loc, action, tk, dk, occupant, want))
+        if action in ('refuse', 'unspecified'):
+            break
+        state[loc] = want
+        if action != 'free':
+            st.distinct.add((tk, dk, overwrite, min(pos, 2)))
+    # locations that entries selected AFTER the point where the model stops may
+    # touch: nothing is specified for them
+    later_locs = set(listing[i][2] for i in order[len(steps):])
+    if steps and steps[-1][2] == 'unspecified':
+        later_locs.add(steps[-1][1])
+    # Pass 2: how far did the implementation get?  (an entry that left the trash was processed)
+    left = [OR.pair_gone(snap1, stp[0]) for stp in steps]
+    k = None
+    for idx, l in enumerate(left):
+        if not l:
+            k = idx
+            break
+    done = steps if k is None else steps[:k]
+    # steps that completed: every one of them must have been allowed to
+    final = {}
+    for (e, loc, action, tk, dk, occupant, want) in done:
+        if action == 'refuse':
+            st.distinct.add((tk, dk, overwrite, 0))
+            res.append(('C06/clobbered-without-overwrite/trashed=%s/dest=%s' % (tk, dk),
+                        'destination %r (%s) was occupied, no --overwrite, but the entry %r left the trash: destination now %r (exit %s)\nstderr: %s'
+                        % (loc, dk, e, Wd.subtree(snap1, loc), r.exit, r.errs[-300:])))
+            break
+        if action == 'unspecified':
+            break
+        if loc in final and final[loc][2] == 'symlink->dir':
+            # a later generation on a location whose first restore went through a symlink to a
+            # directory: attribute any mismatch to that first step (known root cause)
+            final[loc] = (want, final[loc][1], 'symlink->dir', action)
+        else:
+            final[loc] = (want, tk, dk, action)
+    if not res:
+        for loc, (tree, tk, dk, action) in final.items():
+            if loc in later_locs:
                 continue
             have = Wd.subtree(snap1, loc)
-            if not Wd.same_tree(want, have):
-                res.append(('C06/overwrite-did-not-replace/trashed=%s/dest=%s' % (tk, dk),
-                            '--overwrite: destination %r (%s) should now hold the restored %s, but holds %r (exit %s)\nstderr: %s'
-                            % (loc, dk, tk, have, r.exit, r.errs[-300:])))
-                refused_seen = True
-            elif not OR.pair_gone(snap1, e):
-                res.append(('C06/overwrite-pair-left/trashed=%s/dest=%s' % (tk, dk), '--overwrite restored %r but the pair is still in the trash' % (e,)))
+            if Wd.same_tree(tree, have):
+                st.probes['overwritten' if action == 'overwrite' else 'restored-to-free-destination'] += 1
+                if action == 'overwrite' and dk.startswith('symlink->') and dk != 'symlink->nothing':
+                    t = ML.resolve(snap0, loc)
+                    if t and t not in final and not Wd.same_tree(Wd.subtree(snap0, t), Wd.subtree(snap1, t)):
+                        res.append(('C06/overwrite-touched-link-target/trashed=%s/dest=%s' % (tk, dk),
+                                    '--overwrite on %r (%s): the former target %r changed: %r -> %r' % (loc, dk, t, Wd.subtree(snap0, t), Wd.subtree(snap1, t))))
+            elif action == 'free':
+                res.append(('C06/free-destination-not-restored/%s' % tk, 'entry left the trash, destination %r was free, but it holds %r instead of the trashed %s (exit %s) stderr %s'
+                            % (loc, have, tk, r.exit, r.errs[-300:])))
             else:
-                st.probes['overwritten'] += 1
-            # a symlink's former target must be untouched
-            if dk.startswith('symlink->') and dk != 'symlink->nothing':
-                t = ML.resolve(snap0, loc)
-                if t and not Wd.same_tree(Wd.subtree(snap0, t), Wd.subtree(snap1, t)):
-                    res.append(('C06/overwrite-touched-link-target/trashed=%s/dest=%s' % (tk, dk),
-                                '--overwrite on %r (%s): the former target %r changed: %r -> %r' % (loc, dk, t, Wd.subtree(snap0, t), Wd.subtree(snap1, t))))
+                res.append(('C06/overwrite-did-not-replace/trashed=%s/dest=%s' % (tk, dk),
+                            '--overwrite: entry left the trash but destination %r (%s) holds %r instead of the restored %s (exit %s)\nstderr: %s'
+                            % (loc, dk, have, tk, r.exit, r.errs[-300:])))
+    # the first step that did not complete
+    if k is not None and not res:
+        e, loc, action, tk, dk, occupant, want = steps[k]
+        have = Wd.subtree(snap1, loc)
+        expected_there = final[loc][0] if loc in final else occupant
+        if action == 'refuse':
+            st.distinct.add((tk, dk, overwrite, min(k, 2)))
+            st.probes['dest-' + ('dangling' if dk == 'symlink->nothing' else 'symlink-dir' if dk == 'symlink->dir' else 'dir' if dk.startswith('dir') else 'file')] += 1
+            if not Wd.same_tree(expected_there, have):
+                res.append(('C06/clobbered-without-overwrite/trashed=%s/dest=%s' % (tk, dk),
+                            'destination %r (%s) was occupied, no --overwrite, but it changed: %r -> %r (exit %s)\nstderr: %s'
+                            % (loc, dk, expected_there, have, r.exit, r.errs[-300:])))
+            else:
+                st.probes['refused'] += 1
+            if not OR.pair_intact(snap0, snap1, e):
+                res.append(('C06/refused-but-pair-changed/trashed=%s/dest=%s' % (tk, dk),
+                            'destination %r was occupied, no --overwrite, but the trashed pair %r changed' % (loc, e)))
+            if r.exit == 0:
+                res.append(('C06/refusal-exit0/trashed=%s/dest=%s' % (tk, dk), 'destination %r (%s) was occupied, no --overwrite, exit status 0; stderr %r' % (loc, dk, r.errs[-200:])))
+            if k > 0:
+                st.probes['restored-before-refusal'] += 1
+        elif action == 'free':
+            res.append(('C06/free-destination-not-restored/%s' % tk, 'destination %r was free and selected, but the entry %r did not leave the trash (exit %s) stderr %s'
+                        % (loc, e, r.exit, r.errs[-300:])))
+        elif action == 'overwrite':
+            res.append(('C06/overwrite-did-not-replace/trashed=%s/dest=%s' % (tk, dk),
+                        '--overwrite: destination %r (%s) should be replaced by the restored %s, but the entry did not leave the trash; destination holds %r (exit %s)\nstderr: %s'
+                        % (loc, dk, tk, have, r.exit, r.errs[-300:])))
+            if not Wd.same_tree(expected_there, have) and dk.startswith('symlink->dir'):
+                pass
     seen, out = set(), []
     for s, m in res:
         if s not in seen:
